@@ -16,6 +16,7 @@ import PetgraphModel.Proofs.C10W4Bounded
 import PetgraphModel.Proofs.C10W4Driver
 import PetgraphModel.Proofs.C10W4KspFits
 import PetgraphModel.Proofs.C10W4AstarFits
+import PetgraphModel.Proofs.C10W6Inf
 /-
 C10 — `dijkstra`, `astar`, `k_shortest_path` return true shortest costs and real paths; `MinScored`
 is the reversed order with NaN last.
@@ -34,6 +35,8 @@ Part 5 (wave 4): `k_shortest_path` WITH a goal is exact; the judges are complete
 clause sets) and their oracles total; bounded cost types; the run-time checks of the hypotheses; and
 the driver-level theorems: every theorem instantiated once for the concrete heap discipline `popMin`,
 the overflow-checked addition and the Boolean checks the driver evaluates on every case it judges.
+Part 6 (wave 6, the corners): float costs with `+∞` (sentinel judges, sound by reduction to the judges of Part 1);
+what the two view classifiers of the open findings D23 / D6 pin down.
 -/
 namespace PetgraphModel.C10T
 open PetgraphModel PetgraphModel.MGraph PetgraphModel.Oracle PetgraphModel.C10 PetgraphModel.C10P PetgraphModel.SP
@@ -624,6 +627,128 @@ theorem C10_driver_k_shortest_path (v : View) (hv : viewOkB v = true) (hvm : vie
     refine ⟨m, rfl, hr.symm, hwrap, G.1, ?_, G.2.2, T, hT, C10_oracle_kth_walkF _ v.g s k T hT hk⟩
     intro hg x c
     exact ⟨G.1 x c, G.2.1 hg x c⟩
+
+/-! ## Part 6 — wave 6: `+∞` costs and the classified views -/
+
+/-- an inf-costing graph for the examples: 0→1 (3), 1→2 (`S` = +∞), 0→3 (`S`), S = 100 -/
+def exInf : MGraph := { directed := true, nodes := [0, 1, 2, 3], edges := [⟨0, 0, 1, 3⟩, ⟨1, 1, 2, 100⟩, ⟨2, 0, 3, 100⟩] }
+
+/-- `dijkstra(g, s, None, ..)` with `+∞` costs (`f64inf` requests; `S` is the sentinel that stands for `+∞`, answers
+`inf` are read as `S`): an accepted map has distinct keys, its key set is exactly the reachable set, and its entries
+are exactly the true shortest-walk costs with everything `≥ S` collapsed to `S`. -/
+theorem C10_judge_dijkstra_inf (S : Int) (g : MGraph) (s : Nat) (m : List (Nat × Int)) (h : okDijInf S g s m = true) :
+    (m.map (·.1)).Nodup ∧
+    (∀ v c, (v, c) ∈ m ↔ ∃ y, IsShortest g s v y ∧ c = canonInf S y) ∧
+    (∀ v, (∃ c, (v, c) ∈ m) ↔ Reach g s v) :=
+  dijInf_sound S g s m h
+
+example : okDijInf 100 exInf 0 [(0, 0), (1, 3), (2, 100), (3, 100)] = true := by decide
+example : okDijInf 100 exInf 0 [(0, 0), (1, 3), (2, 103), (3, 100)] = false := by decide
+example : okDijInf 100 exInf 0 [(0, 0), (1, 3), (3, 100)] = false := by decide
+
+/-- what the collapsed value says: an entry is `+∞` iff EVERY walk to the node costs at least the sentinel, and a
+finite entry is the exact shortest-walk cost. -/
+theorem C10_inf_meaning (S : Int) (g : MGraph) (s v : Nat) (y : Int) (h : IsShortest g s v y) :
+    (canonInf S y = S ↔ ∀ c, WalkCost g s v c → S ≤ c) ∧ (canonInf S y ≠ S → canonInf S y = y) := by
+  constructor
+  · constructor
+    · intro hc c hw
+      have hy : S ≤ y := by
+        by_cases hy : S ≤ y
+        · exact hy
+        · rw [canonInf_of_lt (by omega)] at hc; omega
+      exact Int.le_trans hy (h.2 c hw)
+    · intro hall
+      exact canonInf_of_le (hall y h.1)
+  · intro hne
+    by_cases hy : S ≤ y
+    · exact absurd (canonInf_of_le hy) hne
+    · exact canonInf_of_lt (by omega)
+
+/-- a map without `+∞` entries is judged exactly as by the ordinary judge -/
+theorem C10_judge_inf_finite (S : Int) (g : MGraph) (s : Nat) (m : List (Nat × Int)) (h : okDijInf S g s m = true)
+    (hfin : ∀ v c, (v, c) ∈ m → c < S) : ∀ v c, (v, c) ∈ m ↔ IsShortest g s v c := by
+  have hs := (C10_judge_dijkstra_inf S g s m h).2.1
+  intro v c
+  constructor
+  · intro hm
+    obtain ⟨y, hy, hc⟩ := (hs v c).mp hm
+    have hlt := hfin v c hm
+    have : y < S := by
+      by_cases hy' : S ≤ y
+      · rw [canonInf_of_le hy'] at hc; omega
+      · omega
+    rw [canonInf_of_lt this] at hc
+    subst hc; exact hy
+  · intro hy
+    by_cases hc : S ≤ c
+    · have hm := (hs v S).mpr ⟨c, hy, (canonInf_of_le hc).symm⟩
+      exact absurd (hfin v S hm) (by omega)
+    · exact (hs v c).mpr ⟨c, hy, (canonInf_of_lt (by omega)).symm⟩
+
+/-- `k_shortest_path(g, s, None, k, ..)` with `+∞` costs: `k ≥ 1`, distinct keys, and the entries are exactly the
+k-th cheapest walk costs collapsed at the sentinel (so exactly the nodes with `k` walks have an entry). -/
+theorem C10_judge_k_shortest_path_inf (S : Int) (fuel : Nat) (g : MGraph) (s k : Nat) (m : List (Nat × Int))
+    (h : okKspInfF S fuel g s k m = true) :
+    1 ≤ k ∧ (m.map (·.1)).Nodup ∧
+    (∀ v c, (v, c) ∈ m ↔ ∃ y, KthCost g s v k y ∧ c = canonInf S y) :=
+  kspInf_sound S fuel g s k m h
+
+example : okKspInfF 100 20 exInf 0 1 [(0, 0), (1, 3), (2, 100), (3, 100)] = true := by decide
+example : okKspInfF 100 20 exInf 0 2 [] = true := by decide
+
+/-- `astar` with `+∞` costs, answer `None`: no goal is reachable. -/
+theorem C10_judge_astar_inf_none (S : Int) (g : MGraph) (s : Nat) (goals : List Nat) (h : okAstarInf S g s goals none = true) :
+    ∀ t ∈ goals, ¬ Reach g s t :=
+  astarInf_none_sound S g s goals h
+
+/-- `astar` with `+∞` costs, answer `Some((c, p))`: `p` is a real path from `s` to a goal; its arc costs sum to some
+`pc`, the reported cost is `pc` collapsed at the sentinel (`inf` iff `pc ≥ S`), and no walk to any goal is cheaper
+after collapsing: a finite `c` is the exact nearest-goal distance, `c = S` (`inf`) says every walk to every goal
+costs at least `S` (all paths through a `+∞` arc are equally good, the implementation may return any of them). -/
+theorem C10_judge_astar_inf_some (S : Int) (g : MGraph) (s : Nat) (goals : List Nat) (c : Int) (p : List Nat)
+    (h : okAstarInf S g s goals (some (c, p)) = true) :
+    ∃ pc, c = canonInf S pc ∧ p.head? = some s ∧ PathCost g p pc ∧
+      (∃ t, p.getLast? = some t ∧ t ∈ goals ∧ WalkCost g s t pc) ∧
+      (∀ t' ∈ goals, ∀ c', WalkCost g s t' c' → c ≤ canonInf S c') ∧
+      (c < S → ∀ t' ∈ goals, ∀ c', WalkCost g s t' c' → c ≤ c') :=
+  astarInf_some_sound S g s goals c p h
+
+example : okAstarInf 100 exInf 0 [2] (some (100, [0, 1, 2])) = true := by decide
+example : okAstarInf 100 exInf 0 [1, 2] (some (3, [0, 1])) = true := by decide
+example : okAstarInf 100 exInf 0 [2] (some (103, [0, 1, 2])) = false := by decide
+example : okAstarInf 100 exInf 0 [1, 2] (some (100, [0, 1, 2])) = false := by decide
+
+/-- collapsing is monotone, idempotent and the identity below the sentinel (so the exact comparison of a collapsed
+model answer with the implementation's is meaningful) -/
+theorem C10_canonInf_laws (S a b : Int) :
+    (a ≤ b → canonInf S a ≤ canonInf S b) ∧ canonInf S (canonInf S a) = canonInf S a ∧ (a < S → canonInf S a = a) ∧
+    canonInf S a ≤ S :=
+  ⟨canonInf_mono, canonInf_idem S a, canonInf_of_lt, canonInf_le S a⟩
+
+/-- the classifier of the open finding D23 (consulted by the driver only for a view that failed `viewOkB`/`viewOkMB`
+under an `ua(..)` encoding) pins every row: the row of `a` has one entry per edge out of `a` plus one per edge INTO
+`a` — a loop therefore counts twice. -/
+theorem C10_known_d23_shape (g : MGraph) (rows : List (Nat × List (Nat × Nat))) (h : d23Shape g rows = true)
+    (a : Nat) (ha : a ∈ g.nodes) :
+    ∃ r, rows.lookup a = some r ∧
+      r.length = (g.edges.filter (·.src == a)).length + (g.edges.filter (·.tgt == a)).length :=
+  d23Shape_row_length g rows h a ha
+
+/-- the classifier of the open finding D6 under `Reversed(&MatrixGraph)`: every entry of every row has `target = a`. -/
+theorem C10_known_d6_shape (g : MGraph) (rows : List (Nat × List (Nat × Nat))) (h : d6Shape g rows = true)
+    (a : Nat) (ha : a ∈ g.nodes) :
+    ∃ r, rows.lookup a = some r ∧ r.length = (g.edges.filter (·.src == a)).length ∧ ∀ x ∈ r, x.1 = a :=
+  d6Shape_rows_self g rows h a ha
+
+-- digraph 1→0 (5), 1→2 (7), loop 0→0 (1) declared undirected: the rows `UndirectedAdaptor` produces today
+example : d23Shape { directed := false, nodes := [0, 1, 2], edges := [⟨0, 1, 0, 5⟩, ⟨1, 1, 2, 7⟩, ⟨2, 0, 0, 1⟩] }
+    [(0, [(0, 5), (0, 1), (0, 1)]), (1, [(0, 5), (2, 7)]), (2, [(2, 7)])] = true := by decide
+-- … and a correct symmetric view is not of that shape
+example : d23Shape { directed := false, nodes := [0, 1, 2], edges := [⟨0, 1, 0, 5⟩, ⟨1, 1, 2, 7⟩] }
+    [(0, [(1, 5)]), (1, [(0, 5), (2, 7)]), (2, [(1, 7)])] = false := by decide
+example : d6Shape { directed := true, nodes := [0, 1], edges := [⟨0, 0, 1, 5⟩] } [(0, [(0, 5)]), (1, [])] = true := by decide
+example : d6Shape { directed := true, nodes := [0, 1], edges := [⟨0, 0, 1, 5⟩] } [(0, [(1, 5)]), (1, [])] = false := by decide
 
 /-! ## the hypotheses are satisfiable: a concrete non-trivial view -/
 
